@@ -376,6 +376,8 @@ type vfStreamSpec struct {
 	Fault          string  `json:"fault"`          // "", rst-client, rst-server, refused, open (left open until the conn closes)
 	FaultAt        int     `json:"faultAt"`        // number of the stream's frames sent before the fault
 	RSTCode        uint32  `json:"rstCode"`
+	ReqTail        int     `json:"reqTail"`  // 1-4: the request body ends that many bytes into one more envelope prefix
+	RespTail       int     `json:"respTail"` // same for the response body
 }
 
 type vfExchange struct {
@@ -425,6 +427,16 @@ func vfEnvelopeBytes(msgs []vfMsg) []byte {
 	return buf.Bytes()
 }
 
+// vfBodyWithTail: the enveloped messages followed by the first tail bytes of one more envelope prefix (a body that ends
+// part-way through a prefix).
+func vfBodyWithTail(msgs []vfMsg, tail int) []byte {
+	body := vfEnvelopeBytes(msgs)
+	if tail > 0 && tail < 5 {
+		body = append(body, []byte{0, 0, 0, 0, 9}[:tail]...)
+	}
+	return body
+}
+
 func vfSplit(body []byte, sizes []int) [][]byte {
 	var out [][]byte
 	i := 0
@@ -451,8 +463,8 @@ func vfSplit(body []byte, sizes []int) [][]byte {
 
 // vfStreamFrames lists one stream's abstract frames in a causal order.
 func vfStreamFrames(si int, s vfStreamSpec) []vfAbsFrame {
-	reqBody := vfEnvelopeBytes(s.ReqMsgs)
-	respBody := vfEnvelopeBytes(s.RespMsgs)
+	reqBody := vfBodyWithTail(s.ReqMsgs, s.ReqTail)
+	respBody := vfBodyWithTail(s.RespMsgs, s.RespTail)
 	var req, resp []vfAbsFrame
 	reqChunks := vfSplit(reqBody, s.ReqFrameSizes)
 	head := vfAbsFrame{stream: si, dir: 0, kind: "headers", big: s.BigHeaders, end: len(reqChunks) == 0 && !s.ReqEndEmpty && !s.ReqTrailers}
@@ -1142,6 +1154,9 @@ func vfGenExchange(t *rapid.T) vfExchange {
 			s.RespFrameSizes = append(s.RespFrameSizes, rapid.SampledFrom([]int{1, 2, 4, 5, 9, 100, 16384}).Draw(t, "respsize"))
 		}
 		s.ReqEndEmpty = rapid.Bool().Draw(t, "reqEndEmpty")
+		if rapid.IntRange(0, 5).Draw(t, "truncatedBodies") == 0 {
+			s.ReqTail, s.RespTail = rapid.IntRange(0, 4).Draw(t, "reqTail"), rapid.IntRange(0, 4).Draw(t, "respTail")
+		}
 		s.ReqTrailers = rapid.IntRange(0, 4).Draw(t, "reqTrailers") == 0
 		s.Trailers = rapid.Bool().Draw(t, "trailers")
 		s.BigHeaders = rapid.IntRange(0, 4).Draw(t, "bigHeaders") == 0
